@@ -217,6 +217,7 @@ type c17Cfg struct {
 	outs  []c17Out
 	pred  *c17Pred
 	style int64
+	ttl   bool
 }
 
 func c17ParseCfg(c Case) (*c17Cfg, bool) {
@@ -226,6 +227,8 @@ func c17ParseCfg(c Case) (*c17Cfg, bool) {
 			continue
 		}
 		switch l[0] {
+		case "ttl":
+			cfg.ttl = true
 		case "mode":
 			if len(l) > 1 {
 				cfg.mode = l[1]
@@ -255,9 +258,10 @@ func c17ParseCfg(c Case) (*c17Cfg, bool) {
 }
 
 type c17Row struct {
-	ts   int64
-	data map[string]interface{}
-	id   float64 // value of the id field (0 = none)
+	special string // "nap" / "reap": not a row
+	ts      int64
+	data    map[string]interface{}
+	id      float64 // value of the id field (0 = none)
 }
 
 func c17ParseRow(cfg *c17Cfg, op []string) (*c17Row, bool) {
@@ -391,7 +395,12 @@ func c17WindowConfig(cfg *c17Cfg, cb func([]types.Row)) types.WindowConfig {
 		alias[o.alias] = o.call.field
 	}
 	rng := rand.New(rand.NewSource(cfg.style))
+	var ttl time.Duration
+	if cfg.ttl {
+		ttl = 10 * time.Second
+	}
 	return types.WindowConfig{
+		CountStateTTL:    ttl,
 		Type:             window.TypeGlobal,
 		GroupByKeys:      cfg.keys,
 		SelectFields:     sel,
@@ -440,6 +449,10 @@ func (c17) Exec(c Case) [][][]string {
 	}
 	rows := make([]*c17Row, len(c.Ops))
 	for i, op := range c.Ops {
+		if op[0] == "nap" || op[0] == "reap" { // wall-clock ops of the STATETTL scenario (direct mode)
+			rows[i] = &c17Row{special: op[0]}
+			continue
+		}
 		r, ok := c17ParseRow(cfg, op)
 		if !ok {
 			return c17ErrObs(len(c.Ops), "bad op")
@@ -473,6 +486,14 @@ func c17ExecDirect(cfg *c17Cfg, rows []*c17Row) [][][]string {
 	out := make([][][]string, len(rows))
 	for i, r := range rows {
 		got = got[:0]
+		switch r.special {
+		case "nap":
+			time.Sleep(1200 * time.Millisecond)
+			continue
+		case "reap":
+			gw.VerifReapIdle(time.Now().Add(9400 * time.Millisecond))
+			continue
+		}
 		gw.VerifProcessRow(r.data, time.Unix(0, r.ts))
 		for _, m := range got {
 			out[i] = append(out[i], c17FireLine(cfg, m, true))
@@ -716,6 +737,42 @@ func (c17) Gen(rng *rand.Rand, tier string, idx int) Case {
 			op = append(op, hx("id"), "i:"+itoa(int64(i+1)))
 		}
 		c.Ops = append(c.Ops, op)
+	}
+	if mode == "direct" && len(c.Ops) >= 6 && rng.Intn(20) == 0 {
+		// STATETTL 10 s with the reaper run by hand: after a real pause of 1.2 s every group receives a row again,
+		// then the reaper runs 9.4 s "later" — every group was active 9.4 s ago, none may be reaped, so the rest of
+		// the case must go on as if there were no TTL (the model has none)
+		c.Cfg = append(c.Cfg, []string{"ttl", "1"})
+		c.Stat = append(c.Stat, "statettl-reaper")
+		cut := 2 + rng.Intn(4) // early: most groups have an open window with a few rows in it
+		if cut > len(c.Ops)-2 {
+			cut = len(c.Ops) - 2
+		}
+		nk := 0
+		for _, l := range c.Cfg {
+			if l[0] == "keys" {
+				nk = len(l) - 1
+			}
+		}
+		seen := map[string][]string{}
+		var order []string
+		for _, op := range c.Ops[:cut] {
+			k := strings.Join(op[2:2+nk], " ")
+			if _, ok := seen[k]; !ok {
+				order = append(order, k)
+			}
+			seen[k] = op
+		}
+		ops := append([][]string(nil), c.Ops[:cut]...)
+		ops = append(ops, []string{"nap"})
+		for i, k := range order {
+			r := append([]string(nil), seen[k]...)
+			r[1] = itoa(int64(1000 + 10*len(c.Ops) + i))
+			ops = append(ops, r)
+		}
+		ops = append(ops, []string{"reap"})
+		ops = append(ops, c.Ops[cut:]...)
+		c.Ops = ops
 	}
 	return c
 }
